@@ -43,7 +43,7 @@ func init() {
 		Floors: func(t string) map[string]int64 {
 			return map[string]int64{"len.0": 20, "len.1": 20, "len.2": 20, "len.3": 20, "simple_input.judged": 3000, "dropped_vertices.checked": 10000, "shape.hook": 500, "shape.spiral": 500, "shape.out_and_back": 500,
 				"tol.zero": 500, "tol.inf": 500, "storage.members_share_one_backing_array": 1000, "polygon.rings_unclosed": 500, "revisit.judged": 500, "boxwalk.simple_judged": 50000, "boxwalk.on_an_integer_lattice": 10000, "boxwalk.tail_returns_into_pocket": 10000, "boxwalk.vertices_dropped": 25000, "multi.members_independent": 500, "polygon.rings": 500, "hook.steps_seen": 10000,
-				"far.simple_judged": 2000, "far.vertices_dropped": 500, "far.ordinary_vertex_kept_for_tolerance": 300, "far.end_beyond_1e154": 1000, "far.ordinary_part_tiny": 1000, "far.end_in_the_last_binade": 500, "far.ends_on_opposite_sides_in_the_last_binade": 300}
+				"far.simple_judged": 2000, "far.vertices_dropped": 500, "far.ordinary_vertex_kept_for_tolerance": 300, "far.end_beyond_1e154": 1000, "far.ordinary_part_tiny": 1000, "far.end_in_the_last_binade": 500, "far.ends_on_opposite_sides_in_the_last_binade": 300, "far.short_cut_across_the_far_segment": 1500}
 		},
 	})
 }
@@ -572,8 +572,13 @@ func runFar(c *core.Ctx, idx int) {
 		if r.Chance(0.5) {
 			h = math.Pow(10, r.Range(155, 300))
 		}
-		if r.Chance(0.12) && !tiny {
-			h = r.Range(0.6e308, 1.79e308) // the difference of two such ordinates of opposite sign is not a float64
+		if r.Chance(0.35) && !tiny {
+			// the last binades: the difference of two such ordinates of opposite sign is not a
+			// float64, and neither is the product of one with an ordinary ordinate above 1
+			h = r.Range(0.6e308, 1.79e308)
+			if r.Bool() {
+				h = math.Pow(10, r.Range(304, 308.2))
+			}
 			c.Count("far.end_in_the_last_binade")
 		}
 
@@ -628,6 +633,41 @@ func runFar(c *core.Ctx, idx int) {
 		}
 		c.Count("far.ends_on_opposite_sides_in_the_last_binade")
 	}
+	forcedTol := 0.0
+	if !tiny && r.Chance(0.06) {
+		// aimed at the short cut ACROSS the segment that comes in from the far vertex: A (far away
+		// to the left) - B (its ordinary end) - C (far below B's level, left of B) - D (right of B,
+		// a little above its level) - E (left of B, above it). C-D-E passes round the tip B; the
+		// short cut C-E crosses A-B, and the tolerance is set so that D may go. The whole figure
+		// is mirrored or transposed at random.
+		sc := math.Pow(10, r.Range(0.5, 3))
+		H := r.Range(0.6e308, 1.79e308)
+		if r.Bool() {
+			H = math.Pow(10, r.Range(300, 308.2))
+		}
+		a := geom.Point{X: -H, Y: sc * r.Range(-0.2, 0.2)}
+		b := geom.Point{X: sc * r.Range(-0.1, 0.1), Y: sc * r.Range(-0.1, 0.1)}
+		cc := geom.Point{X: -sc * r.Range(0.8, 1.2), Y: -sc * r.Range(8, 12)}
+		d := geom.Point{X: sc * r.Range(0.5, 1.5), Y: sc * r.Range(0.2, 0.5)}
+		e := geom.Point{X: -sc * r.Range(0.5, 1.5), Y: sc * r.Range(0.6, 2)}
+		pts = []geom.Point{a, b, cc, d, e}
+		n = 5
+		forcedTol = exact.DistPointSeg(gen.EP(d), gen.EP(cc), gen.EP(e)) * r.Range(1.02, 1.2)
+		mx, my, tr := r.Bool(), r.Bool(), r.Bool()
+		for i := range pts {
+			if mx {
+				pts[i].X = -pts[i].X
+			}
+			if my {
+				pts[i].Y = -pts[i].Y
+			}
+			if tr {
+				pts[i].X, pts[i].Y = pts[i].Y, pts[i].X
+			}
+		}
+		scale = sc
+		c.Count("far.short_cut_across_the_far_segment")
+	}
 	for i := range pts {
 		for j := 0; j < i; j++ {
 			if pts[i] == pts[j] {
@@ -667,6 +707,9 @@ func runFar(c *core.Ctx, idx int) {
 	tol := scale * r.Range(0, 0.6)
 	if r.Chance(0.1) {
 		tol = 0
+	}
+	if forcedTol > 0 {
+		tol = forcedTol
 	}
 	l := geom.LineString(pts)
 	detail := map[string]interface{}{"input": gen.Dump(l), "tolerance": fmt.Sprint(tol), "shape": "far_vertex", "input_is_simple": true}
